@@ -453,6 +453,9 @@ inductive Op
   | svcDelete (o : Own)
   | svcDeleteCut (o : Own)
   | svcSync
+  /-- The veth pair of `o` disappears from the bridge (its container died: the kernel destroys the pair with the
+      network namespace) while the request - the owner - is still there.  The service's memory is untouched. -/
+  | devGone (o : Own)
   deriving Repr
 
 /-- One call.  `c` is the network the stand-alone `VipMgr` was constructed with. -/
@@ -476,6 +479,7 @@ def step (c : Cidr) (s : St) : Op → St × Res
   | .svcCreate o env => svcCreate s o env
   | .svcDelete o => svcDelete s o true
   | .svcDeleteCut o => svcDeleteCut s o
+  | .devGone o => ({ s with kdevs := s.kdevs.filter (· ≠ o) }, .ok)
   | .svcSync => svcSync s
 
 def run (c : Cidr) (s : St) (ops : List Op) : St := ops.foldl (fun s op => (step c s op).1) s
@@ -513,6 +517,7 @@ def opOk (inst : Nat → Bool) (s : St) : Op → Bool
   | .svcCreate o _ => ownerOk inst o
   | .svcDelete o => ownerOk inst o
   | .svcDeleteCut o => ownerOk inst o
+  | .devGone _ => true
   | .svcSync => s.devs.all (fun e => e.2.stale == !s.live.contains e.1)
 
 /-- A history inside the domain: every operation is admissible in the state it is issued in. -/
